@@ -33,7 +33,10 @@ def layouts():
     def oval2(**kw):
         return RollPass(label="oval2", roll=Roll(groove=CircularOvalGroove(depth=6e-3, r1=6e-3, r2=35e-3), nominal_radius=160e-3,
                                                  rotational_frequency=1), gap=2e-3, **kw)
-    ip2 = lambda: Profile.round(diameter=30e-3, temperature=1473.15, material=["C45", "steel"], length=1, density=7.5e3)
+    def ip2():
+        p_ = Profile.round(diameter=30e-3, temperature=1473.15, material=["C45", "steel"], length=1, density=7.5e3)
+        p_.classifiers = set(p_.classifiers) | {"CC-Billet", "Heat 4711"}       # keywords of the feedstock: mixed case, blanks
+        return p_
     ip3 = lambda: Profile.round(diameter=55e-3, temperature=1473.15, strain=0, material=["C45", "steel"], flow_stress=100e6, length=1)
     ip4 = lambda: Profile.round(diameter=30e-3, temperature=1473.15, strain=0.25, material=["C45", "steel"], length=1, density=7.5e3)
     out = []
@@ -47,6 +50,8 @@ def layouts():
     out.append(('cooling+rotator', lambda: PassSequence([oval(), CoolingPipe(label="cp", duration=1.5, inner_radius=0.05, coolant_volume_flux=1e-3),
                                                          Rotator(label="rot", rotation=90), rnd()]), ip2, False))
     out.append(('disks', lambda: PassSequence([oval(disk_element_count=3), Transport(label="t1", duration=1, disk_element_count=4), rnd(disk_element_count=5)]), ip2, False))
+    out.append(('disks-exit-point', lambda: PassSequence([oval(disk_element_count=4, exit_point=4e-3), Transport(label="t1", duration=1, disk_element_count=3),
+                                                          rnd(disk_element_count=2, exit_point=2e-3)]), ip2, False))
     out.append(('spread-model', lambda: PassSequence([oval(), Transport(label="t1", duration=1), rnd()]), ip2, True))
     out.append(('transport-first', lambda: PassSequence([Transport(label="t0", duration=1, velocity=1.0), oval(), Transport(label="t1", duration=1), rnd()]), ip2, False))
     out.append(('rotator-first', lambda: PassSequence([Rotator(label="rot0", rotation=90, velocity=1.0), oval(), Transport(label="t1", duration=1), rnd()]), ip2, False))
@@ -124,6 +129,10 @@ def _check_sequence(chk, name, seq, returned, ip, prec):
             if through_rotation:
                 if rel(inp['cross_section'].area, last['cross_section'].area) > 1e-12:
                     fail('handover-rotation', f"{u}: entry rotation changed the area")
+                # classifiers: what was delivered arrives letter by letter (the turn only adds its marks)
+                if not set(last.get('classifiers', ())) <= set(inp.get('classifiers', ())):
+                    fail('handover', f"{u}: the entering profile lacks delivered classifiers {sorted(set(last['classifiers']) - set(inp['classifiers']))} "
+                                     f"(it carries {sorted(inp['classifiers'])})")
                 # ... and the entering section is the delivered one turned about the rolling axis (by the set angle, or by one of the rule angles)
                 from shapely.affinity import rotate as _rot
                 P, Q = last['cross_section'], inp['cross_section']
